@@ -172,10 +172,10 @@ def size_case(run, m):
     return ok
 
 
-def read_case(run, kind, m, exception=False, echo=False):
+def read_case(run, kind, m, exception=False, echo=False, subclass=False):
     """part B: one transaction of a real serial client on the fake port (echo: an adaptor that echoes what the host sends,
     client configured with handle_local_echo)"""
-    case = {'part': 'reads', 'client': kind, 'm': m, 'exception': exception, 'echo': echo}
+    case = {'part': 'reads', 'client': kind, 'm': m, 'exception': exception, 'echo': echo, 'subclass': subclass}
     framing = IO.framing_of(kind)
     peer = P.ScriptedPeer(framing, script=[{'kind': 'exception', 'code': 2}] if exception else [], timeout=1.0)
     env = IO.Env(peer)
@@ -183,7 +183,7 @@ def read_case(run, kind, m, exception=False, echo=False):
     unit = 17
     repo.reset_globals()
     with IO.installed(env):
-        client = IO.make_client(kind, timeout=1.0, **({'handle_local_echo': True} if echo else {}))
+        client = IO.make_client(kind, timeout=1.0, **dict({'handle_local_echo': True} if echo else {}, **({'framer_subclass': True} if subclass else {})))
         try:
             client.connect()
             t0 = env.clock.now
@@ -200,8 +200,9 @@ def read_case(run, kind, m, exception=False, echo=False):
         run.violation('reads-no-request:%s' % kind, case, 'the reference server did not recognise the request: %r' % peer.unparsed[:1])
         return False
     conn = env.conns[-1]
-    wi = max(i for i, e in enumerate(env.trace) if e[1] == 'write')
+    wi = max(i for i, e in enumerate(env.trace) if e[1] in ('write', 'send'))
     reads = [e[2] for e in env.trace[wi + 1:] if e[1] == 'read']
+    stream = kind.endswith('-over-tcp')          # socket transport: recv(n) asks for what is still missing, the sizes asked do not add up
     sent = peer.events[0][3] if not exception else ADU.build(framing, unit, bytes([S.encode(m)[0] | 0x80, 2]))
     run.count('read_transactions')
     region = framing == 'binary' and any(b in (0x7B, 0x7D) for b in sent[1:-1])
@@ -210,7 +211,7 @@ def read_case(run, kind, m, exception=False, echo=False):
     ok = True
     why = None
     echoed = len(conn.written[-1][1]) if echo and conn.written else 0
-    if sum(r for r in reads if r and r > 0) != len(sent) + echoed:
+    if not stream and sum(r for r in reads if r and r > 0) != len(sent) + echoed:
         why = 'read sizes %r sum to %d, reply frame is %d bytes%s' % (reads, sum(r for r in reads if r), len(sent), ' after an echo of %d bytes' % echoed if echo else '')
     elif conn.available():
         why = '%d reply bytes left unread' % conn.available()
@@ -374,6 +375,9 @@ def run(run):
                     if q <= 3 or q % 97 == 0:
                         ok = read_case(run, kind, m, exc, echo=True) and ok
                         run.count('echo_transactions')
+                        # the same framings over a socket, the framer being an application's subclass of the library class
+                        ok = read_case(run, kind + '-over-tcp', m, exc, subclass=True) and ok
+                        run.count('subclassed_framer_transactions')
                     run.case(h64(('B', kind, m['fc'], m.get('sub'), q, exc)), True,
                              sample={'part': 'reads', 'client': kind, 'fc': m['fc'], 'quantity': q, 'exception_reply': exc, 'verdict': 'held' if ok else 'differs'},
                              sample_class=('B', kind, exc))
@@ -413,5 +417,5 @@ def replay(run, case):
     if case['part'] == 'sizes':
         print('held' if size_case(run, m) else 'differs')
     else:
-        print('held' if read_case(run, case['client'], m, case['exception'], case.get('echo', False)) else 'differs')
+        print('held' if read_case(run, case['client'], m, case['exception'], case.get('echo', False), case.get('subclass', False)) else 'differs')
     run.evaluations += 1
